@@ -8,7 +8,7 @@ UNITS = [
     Unit(uid="U17.1.dispatch_two_run", prop="C17", harness="harness/c06_dispatch.c", entry="h_dispatch", mode="plain",
          functions=["setup_common_rtcd_internal"], pre_cmds=[GEN], keep_bodies=["setup_common_rtcd_internal"],
          remove_bodies=["get_cpu_flags"], replace_calls={"get_cpu_flags_to_use": "stub_cpu_flags_to_use"},
-         min_obligations=500, cover_functions=[], timeout=900, mem_gb=16, unwind=64, checks=["--pointer-check", "--bounds-check"],
+         min_obligations=500, canaries=2, cover_functions=[], timeout=900, mem_gb=16, unwind=64, checks=["--pointer-check", "--bounds-check"],
          what="the process-global dispatch table written by the initialiser is a function of its argument (and the CPU) "
               "only: a second call with equal flags leaves all ~490 pointers identical, so instances with equal CPU flags "
               "cannot change each other's dispatch (two-run)"),
